@@ -56,7 +56,7 @@ StepFails(j) ==
       a == P!ActionPropsCx(pre, cx1, Log[j].ev, Log[j].res, post, cx2)
   IN [st |-> {k \in DOMAIN s2 : s1[k] /\ ~s2[k]}, ac |-> {k \in DOMAIN a : ~a[k]}, cx1 |-> cx1, cx2 |-> cx2]
 
-\* a known-finding signature covers every predicate that flips at the step it describes
+\* the known findings whose signature matches some predicate failing at step j
 KfsOf(j, sf) == UNION {K!KFMatch(Log[j - 1].obs, sf.cx1, Log[j].ev, Log[j].res, Log[j].obs, sf.cx2, k) : k \in sf.st \cup sf.ac}
 CheckStep(j, sf) ==
   LET pre == Log[j - 1].obs
@@ -64,9 +64,10 @@ CheckStep(j, sf) ==
       ev == Log[j].ev
       res == Log[j].res
       cf == Conforms(pre, ev, res, post)
-      kfs == KfsOf(j, sf)
-  IN /\ \A k \in sf.st : Report(j, "state", k, kfs)
-     /\ \A k \in sf.ac : Report(j, "action", k, kfs)
+      \* a failing predicate is explained by a known finding only if that finding's signature names (or does not restrict) it
+      kf(k) == K!KFMatch(pre, sf.cx1, ev, res, post, sf.cx2, k)
+  IN /\ \A k \in sf.st : Report(j, "state", k, kf(k))
+     /\ \A k \in sf.ac : Report(j, "action", k, kf(k))
      /\ IF cf = "no" THEN Report(j, "drift", "ConformsToNext", {}) ELSE TRUE
      /\ IF cf = "unmodelled" THEN Report(j, "unmodelled", "ConformsToNext", {}) ELSE TRUE
 
